@@ -17,7 +17,7 @@ import (
 // storage boundary (verifhook kill, armed in the child right before the transfer statement), for every N until the
 // transfer survives.
 //
-//   push  : a child server on a copy of the source directory pushes main, b1 (existing at the remote, older), b2 and a
+//   push  : a child server on a copy of the source directory pushes main, b1 (existing at the remote, older), bnew and a
 //           tag (new) to a copy of the remote. Afterwards the remote must open, every head must be the OLD or the NEW
 //           one, the whole store closure must be complete, a fresh clone must read fully; a retry (no hooks) must
 //           succeed and converge: remote heads = source heads, every commit reads the same in a clone as at the source.
@@ -31,22 +31,45 @@ var c35pullKinds = []string{"persist.afterRename", "manifest.afterRename", "jour
 
 func c35interrupted(c *rig.Ctx) {
 	c.Rule("one seeded source repository (400-800 rows, branches, tags, optional schema change) in its own server directory, pushed in an OLD " +
-		"state to a file remote, then advanced (new commits on main and b1, new branch b2, new tag). For every boundary kind " +
+		"state to a file remote, then advanced (new commits on main and b1, new branch bnew, new tag). For every boundary kind " +
 		"(persist.afterRename = table file landed, manifest.beforeRename / afterRename, nbs.commit.afterManifestUpdate, " +
 		"datas.update.beforeCommit; for clone/fetch also journal.afterSync of the destination) and every N = 1.. until the transfer survives, " +
 		"a child server process runs the transfer on private copies of the directories and SIGKILLs itself at the N-th hit. " +
 		"distinct = (transfer, boundary kind, N, step that was interrupted)")
 	c.Assume("kill points are the hook call sites compiled into dolt with the verif tag; a SIGKILL loses no written data (page cache survives), so this enumerates process crashes, not power loss (C03/C05 cover that)")
+	tl := newTally()
+	for rep := 0; rep < c.Pick(1, 3); rep++ {
+		c35interruptedRep(c, rep, tl)
+	}
+	tl.flush(c)
+	var kinds []string
+	for _, k := range c35pushKinds {
+		if tl.get("c35.kills.push."+k) == 0 {
+			kinds = append(kinds, k)
+		}
+	}
+	sort.Strings(kinds)
+	c.Require(tl.get("c35.kills.push") > 0, "no push was interrupted")
+	c.Require(tl.get("c35.kills.push.persist.afterRename") > 0, "no push was interrupted at a table-file boundary")
+	c.Require(tl.get("c35.kills.push.manifest.afterRename")+tl.get("c35.kills.push.manifest.beforeRename") > 0, "no push was interrupted at a manifest boundary")
+	c.Require(tl.get("c35.kills.clone") > 0, "no clone was interrupted")
+	c.Require(tl.get("c35.kills.fetch") > 0, "no fetch was interrupted")
+	if len(kinds) > 0 {
+		c.Note("push boundary kinds never hit: " + strings.Join(kinds, ","))
+	}
+}
+
+// c35interruptedRep runs the whole enumeration for the rep-th seeded source repository.
+func c35interruptedRep(c *rig.Ctx, rep int, tl *tally) {
 	dir := c.TempDir("c35i")
 	defer os.RemoveAll(dir)
-	tl := newTally()
 	var vmu sync.Mutex
 	viol := func(key, what string, w any) {
 		vmu.Lock()
 		c.Violation(key, what, w)
 		vmu.Unlock()
 	}
-	r := c.SubRand("c35i", 0)
+	r := c.SubRand("c35i", rep)
 	h := genC35(r, true)
 	srcDir, remOld, remNew := filepath.Join(dir, "src"), filepath.Join(dir, "rem-old"), filepath.Join(dir, "rem-new")
 
@@ -64,14 +87,6 @@ func c35interrupted(c *rig.Ctx) {
 			first = false
 		}
 		steps = append(steps, st)
-	}
-	has := func(b string) bool {
-		for _, n := range h.Branches {
-			if n == b {
-				return true
-			}
-		}
-		return false
 	}
 	steps = append(steps,
 		childStep{SQL: "call dolt_remote('add','origin','file://" + remOld + "')"},
@@ -102,8 +117,7 @@ func c35interrupted(c *rig.Ctx) {
 		childStep{SQL: "call dolt_tag('tnew','bnew','-m','new tag')"})
 	newFPStep := len(steps)
 	steps = append(steps, childStep{FP: "p", Graph: "main,b1,bnew"})
-	_ = has
-	c.Case("c35/interrupted/build-source", map[string]any{"steps": steps})
+	c.Case(fmt.Sprintf("c35/interrupted/%d/build-source", rep), map[string]any{"steps": steps})
 	o := runChild(c, srcDir, "", steps)
 	for _, rr := range o.Results {
 		if rr.Err != "" {
@@ -140,7 +154,7 @@ func c35interrupted(c *rig.Ctx) {
 	var cmu sync.Mutex
 	// cloneAndRead clones the remote directory into the parent's server and reads everything; it returns the
 	// unreadable components, the branch heads as the clone sees them, and the graph fingerprint of the given heads.
-	cloneAndRead := func(remDir string, graphHeads map[string]string) (errs []string, rheads map[string]string, g sqlrig.Fingerprint, cerr error) {
+	cloneAndRead := func(remDir string) (errs []string, rheads map[string]string, g sqlrig.Fingerprint, cerr error) {
 		cmu.Lock()
 		cloneSeq++
 		name := fmt.Sprintf("k%d", cloneSeq)
@@ -189,7 +203,7 @@ func c35interrupted(c *rig.Ctx) {
 	rig.Must(copyDir(remOld, remNew))
 	ctlSrc := filepath.Join(dir, "src-ctl")
 	rig.Must(copyDir(srcDir, ctlSrc))
-	c.Case("c35/interrupted/control-push", nil)
+	c.Case(fmt.Sprintf("c35/interrupted/%d/control-push", rep), nil)
 	oc := runChild(c, ctlSrc, "", pushSteps(remNew))
 	for _, rr := range oc.Results {
 		if rr.Err != "" && rr.Step >= 2 {
@@ -217,7 +231,7 @@ func c35interrupted(c *rig.Ctx) {
 			viol("c35/interrupted/"+tag+"/remote-closure", fmt.Sprintf("remote has dangling or altered chunks: %v", rep.Problems), wit)
 			ok = false
 		}
-		errs, _, g, err := cloneAndRead(remDir, nil)
+		errs, _, g, err := cloneAndRead(remDir)
 		if err != nil {
 			viol("c35/interrupted/"+tag+"/clone-failed", "a fresh clone of the remote failed: "+err.Error(), wit)
 			return false
@@ -259,7 +273,7 @@ func c35interrupted(c *rig.Ctx) {
 					base := filepath.Join(dir, fmt.Sprintf("%s-%s-%d", transfer, strings.ReplaceAll(kind, ".", "_"), n))
 					os.MkdirAll(base, 0o755)
 					vmu.Lock()
-					c.Case(fmt.Sprintf("c35/interrupted/%s/%s@%d", transfer, kind, n), map[string]any{"transfer": transfer, "hook": fmt.Sprintf("%s=kill@%d", kind, n)})
+					c.Case(fmt.Sprintf("c35/interrupted/%d/%s/%s@%d", rep, transfer, kind, n), map[string]any{"transfer": transfer, "hook": fmt.Sprintf("%s=kill@%d", kind, n)})
 					vmu.Unlock()
 					killed := fn(j, base)
 					os.RemoveAll(base)
@@ -284,12 +298,12 @@ func c35interrupted(c *rig.Ctx) {
 		ps := pushSteps(rem)
 		ps[2].Hooks = fmt.Sprintf("%s=kill@%d", j.kind, j.n)
 		o := runChild(c, src, "", ps)
-		wit := map[string]any{"transfer": "push", "hook": ps[2].Hooks, "steps": ps, "interrupted_step": o.LastStep, "build": "see case c35/interrupted/build-source"}
+		wit := map[string]any{"transfer": "push", "hook": ps[2].Hooks, "steps": ps, "interrupted_step": o.LastStep, "build": fmt.Sprintf("see case c35/interrupted/%d/build-source", rep)}
 		if !o.Killed {
 			return false
 		}
 		vmu.Lock()
-		c.Distinct(fmt.Sprintf("c35i/push/%s/%d/step%d", j.kind, j.n, o.LastStep))
+		c.Distinct(fmt.Sprintf("c35i/%d/push/%s/%d/step%d", rep, j.kind, j.n, o.LastStep))
 		vmu.Unlock()
 		tl.inc(fmt.Sprintf("c35.push_killed_in_step.%d", o.LastStep))
 		// 1. the remote after the crash
@@ -317,7 +331,7 @@ func c35interrupted(c *rig.Ctx) {
 		} else {
 			tl.add("c35.interrupted_remote_chunks_walked", rep.Chunks)
 		}
-		if errs, _, _, err := cloneAndRead(rem, nil); err != nil {
+		if errs, _, _, err := cloneAndRead(rem); err != nil {
 			viol("c35/interrupted/push/clone-failed", "after an interrupted push a fresh clone of the remote fails: "+err.Error(), wit)
 		} else if len(errs) > 0 {
 			viol("c35/interrupted/push/unreadable", fmt.Sprintf("after an interrupted push a fresh clone has unreadable components: %v", errs), wit)
@@ -358,7 +372,7 @@ func c35interrupted(c *rig.Ctx) {
 			return false
 		}
 		vmu.Lock()
-		c.Distinct(fmt.Sprintf("c35i/clone/%s/%d", j.kind, j.n))
+		c.Distinct(fmt.Sprintf("c35i/%d/clone/%s/%d", rep, j.kind, j.n))
 		vmu.Unlock()
 		if l := dirListing(remNew); l != remNewListing {
 			viol("c35/interrupted/clone/source-changed", "the files of the remote changed while a clone of it was interrupted", map[string]any{"case": wit, "before": remNewListing, "after": l})
@@ -373,7 +387,7 @@ func c35interrupted(c *rig.Ctx) {
 
 	// --- interrupted fetch: an older clone (of rem-old) fetches from rem-new
 	oldClone := filepath.Join(dir, "oldclone")
-	c.Case("c35/interrupted/build-old-clone", nil)
+	c.Case(fmt.Sprintf("c35/interrupted/%d/build-old-clone", rep), nil)
 	ocl := runChild(c, oldClone, "", []childStep{{SQL: "call dolt_clone('file://" + remOld + "','c')"}})
 	if rr := ocl.result(0); rr == nil || rr.Err != "" {
 		c.Note("building the old clone failed; fetch cases skipped: " + trunc(ocl.Log, 300))
@@ -399,7 +413,7 @@ func c35interrupted(c *rig.Ctx) {
 				return false
 			}
 			vmu.Lock()
-			c.Distinct(fmt.Sprintf("c35i/fetch/%s/%d", j.kind, j.n))
+			c.Distinct(fmt.Sprintf("c35i/%d/fetch/%s/%d", rep, j.kind, j.n))
 			vmu.Unlock()
 			if l := dirListing(remNew); l != remNewListing {
 				viol("c35/interrupted/fetch/source-changed", "the files of the remote changed while a fetch from it was interrupted", wit)
@@ -463,21 +477,5 @@ func c35interrupted(c *rig.Ctx) {
 		})
 	}
 
-	tl.flush(c)
-	var kinds []string
-	for _, k := range c35pushKinds {
-		if tl.get("c35.kills.push."+k) == 0 {
-			kinds = append(kinds, k)
-		}
-	}
-	sort.Strings(kinds)
-	c.Require(tl.get("c35.kills.push") > 0, "no push was interrupted")
-	c.Require(tl.get("c35.kills.push.persist.afterRename") > 0, "no push was interrupted at a table-file boundary")
-	c.Require(tl.get("c35.kills.push.manifest.afterRename")+tl.get("c35.kills.push.manifest.beforeRename") > 0, "no push was interrupted at a manifest boundary")
-	c.Require(tl.get("c35.kills.clone") > 0, "no clone was interrupted")
-	c.Require(tl.get("c35.kills.fetch") > 0, "no fetch was interrupted")
-	if len(kinds) > 0 {
-		c.Note("push boundary kinds never hit: " + strings.Join(kinds, ","))
-	}
 	c.Sample(map[string]any{"old_heads": oldHeads, "new_heads": newHeads})
 }
